@@ -15,9 +15,12 @@ CONFIGS = {
     "es/SimpleSpeak/CMU": ("es", "SimpleSpeak", "CMU"),
     "en-gb/ClearSpeak/UEB": ("en-gb", "ClearSpeak", "UEB"),
 }
-EXPR = terms.doc(row(mi("x"), mo("⊕"), mn("3.5"), mo("+"), el("mfrac", mn("1"), mn("2")), mo("="), el("msqrt", row(mi("sin"), mi("A")))))
-GETTERS = [["mathml", EXPR], ["speech"], ["braille", ""], ["overview"], ["nav", "ZoomIn"], ["nav", "MoveNext"]]
-GNAMES = ["set_mathml", "speech", "braille", "overview", "nav:ZoomIn", "nav:MoveNext"]
+EXPR = terms.doc(row(mi("x"), mo("⊕"), mn("3.5", id="num"), mo("+"), el("mfrac", mn("1"), mn("2")), mo("="), el("msqrt", row(mi("sin"), mi("A")))))
+# every kind of call a host makes, incl. the braille queries that work with a temporarily changed preference (highlighted braille of a node,
+# cursor routing, position of the current node) and two preference reads: what a call under a fault leaves behind must be gone after the repair
+GETTERS = [["mathml", EXPR], ["speech"], ["braille", ""], ["overview"], ["nav", "ZoomIn"], ["nav", "MoveNext"],
+           ["nodeat", 2], ["brpos"], ["braille", "num"], ["getpref", "BrailleNavHighlight"], ["getpref", "NavMode"]]
+GNAMES = ["set_mathml", "speech", "braille", "overview", "nav:ZoomIn", "nav:MoveNext", "node_from_braille", "braille_position", "braille:node", "pref:BrailleNavHighlight", "pref:NavMode"]
 
 
 def reachable_files(lang, style, code):
@@ -134,7 +137,7 @@ def env():
 
 def config_prefs(cfg, check="All"):
     lang, style, code = CONFIGS[cfg]
-    return [["pref", "TTS", "none"], ["pref", "Language", lang], ["pref", "SpeechStyle", style], ["pref", "BrailleCode", code], ["pref", "CheckRuleFiles", check]]
+    return [["pref", "TTS", "none"], ["pref", "Language", lang], ["pref", "SpeechStyle", style], ["pref", "BrailleCode", code], ["pref", "BrailleNavHighlight", "All"], ["pref", "CheckRuleFiles", check]]
 
 
 def parse_order(order):
@@ -284,7 +287,14 @@ def work(item):
 
         def judge_under_fault(under, ref, label, first_load):
             no_expression = first_load and not is_ok(under[0])     # set_mathml itself was refused: nothing is stored
+            nav_failed = any(nm_.startswith("nav:") and not is_ok(x_) for nm_, x_ in zip(GNAMES, under))
             for nm, x, b_ in zip(GNAMES, under, ref):
+                if nav_failed and nm == "braille_position" and is_ok(x):
+                    # the position of the CURRENT node: a navigation command that failed under the fault did not move there, so the answer is
+                    # about another node than the baseline's (a consequence of the reported failure, not a silently different output)
+                    counts["position_after_failed_navigation"] = counts.get("position_after_failed_navigation", 0) + 1
+                    sig.append("v")
+                    continue
                 if is_err(x) and init_failed:
                     counts["after_failed_init"] = counts.get("after_failed_init", 0) + 1
                     sig.append("i")
